@@ -11,6 +11,7 @@ Section RB.
 Context {T : Type} (tsize : N) (enc : T -> list N) (dec : list N -> T).
 Notation rv := (@rv T).
 Notation phys_read := (phys_read tsize dec).
+Notation rv_write := (rv_write tsize dec).      (* write() fills a deleted restored slot with zero bytes: dec (0…0) *)
 
 (* mod.rs:388 collect_stored_range / rollback.rs:41-47: prev_updated value, else unchecked read *)
 Definition prev_or_disk (s : rv) (i : N) : T * N :=
